@@ -65,10 +65,10 @@ def programs(draw, tier):
         return {"op": "construct", "type": t, "n": draw(st.integers(2, 3)), "nh": draw(st.integers(1, 3)), "na": draw(st.integers(1, 2))}
     ops = [cons()]
     for _ in range(draw(st.integers(1, 7))):
-        k = draw(st.sampled_from(["construct", "reinit", "sample", "sample", "statistics", "fit", "fit", "save_autoload"]))
+        k = draw(st.sampled_from(["construct", "reinit", "sample", "sample", "statistics", "fit", "fit", "save_autoload", "sample_from_space"]))
         if k == "construct":
             ops.append(cons())
-        elif k == "sample":
+        elif k in ("sample", "sample_from_space"):
             ops.append({"op": k, "k": draw(st.integers(0, 3)), "m": draw(st.integers(1, 5))})
         elif k == "statistics":
             ops.append({"op": k, "obs": draw(st.lists(st.sampled_from(OBSN), min_size=1, max_size=2, unique=True)), "system": draw(st.booleans()),
@@ -123,6 +123,12 @@ def run_program(ops, seed, tmp, form="explicit"):
             outs.append(params_flat(state))
         elif k == "sample":
             outs.append(state.sample(op["k"], num_samples=op["m"]).clone())
+        elif k == "sample_from_space":
+            # the enumerated basis states used as start chains and advanced in place (caller-owned tensor); the enumeration asked for
+            # afterwards is part of the output
+            sp = state.generate_hilbert_space()
+            first = sp.clone()
+            outs.append([first, state.sample(max(op["k"], 1), initial_state=sp, overwrite=True).clone(), state.generate_hilbert_space()])
         elif k == "statistics":
             obs = [make_obs(o) for o in op["obs"]]
             kw = dict(num_samples=op["num_samples"], num_chains=op["num_chains"], burn_in=op["burn_in"], steps=op["steps"])
